@@ -3,6 +3,7 @@ package scen
 import (
 	"bytes"
 	"fmt"
+	"net/netip"
 	"sort"
 	"strings"
 	"sync"
@@ -78,7 +79,10 @@ func (e *c09Env) init() {
 		e.core = fixture.Leaves(fixture.LeavesCore)
 		e.full = fixture.Leaves(fixture.LeavesFull)
 		e.small = fixture.Leaves(fixture.LeavesSmall)
-		e.compact = c09MkFlows(fixture.CompactFlows())
+		// plus IPv6 flows whose address is an IPv4-mapped one: "::ffff:a00:1" and "10.0.0.1" are different
+		// addresses of different families, whatever notation a literal or a canonical string uses
+		mapped, other := netip.MustParseAddr("::ffff:10.0.0.1"), netip.MustParseAddr("2001:db8::2")
+		e.compact = c09MkFlows(append(fixture.CompactFlows(), fixture.Flow{SIP: mapped, DIP: other, Dport: 80, Proto: 6}, fixture.Flow{SIP: other, DIP: mapped, Dport: 80, Proto: 6}))
 		e.all = c09MkFlows(fixture.AllFlows())
 		e.scratch = make([]byte, 64)
 	})
@@ -573,7 +577,10 @@ var c09OddValues = map[string][][2]string{
 		{"::ffff:10.0.0.1/24", "v4-mapped-net"}, {"::ffff:10.0.0.1/104", "v4-mapped-net"}, {"10.0.0.1/0x8", "hex-prefix"}, {"010.0.0.1/8", "padded-octet"},
 		{"/8", "empty-address"}, {"::/0", "zero-net"}, {"0.0.0.0/0", "zero-net"}},
 	"sip": {{"::ffff:10.0.0.1", "v4-mapped"}, {"010.0.0.1", "padded-octet"}, {"10.0.0.1.", "trailing-dot"}, {"::", "zero-addr"}, {"0.0.0.0", "zero-addr"},
-		{"10.0.0.1/32", "cidr-as-address"}, {"2001:DB8::1", "upper-case"}, {"[2001:db8::1]", "bracketed"}},
+		{"10.0.0.1/32", "cidr-as-address"}, {"2001:DB8::1", "upper-case"}, {"[2001:db8::1]", "bracketed"},
+		// other notations of one address: IPv4-mapped / IPv4-compatible written in hex, uncompressed, embedded dotted quad
+		{"::ffff:a00:1", "v4-mapped-hex"}, {"0:0:0:0:0:ffff:a00:1", "v4-mapped-hex"}, {"::a00:1", "v4-compatible-hex"}, {"::10.0.0.1", "v4-compatible-dotted"},
+		{"2001:db8:0:0:0:0:0:1", "uncompressed"}, {"2001:db8::0:1", "partly-compressed"}, {"2001:db8::10.0.0.1", "embedded-dotted"}},
 	"dport": {{"080", "padded"}, {"+80", "signed"}, {"-0", "signed"}, {"0x50", "hex"}, {"65536", "out-of-range"}, {"8 0", "split"}, {"", "empty"}},
 	"proto": {{"06", "padded"}, {"+6", "signed"}, {"256", "out-of-range"}, {"tcp", "name"}, {"TCP", "upper-name"}, {"ipv6-icmp", "name"}, {"unknown", "name"}, {"-1", "signed"}},
 }
